@@ -347,11 +347,39 @@ def check_C04(run: Run):
         if r["err"] != m["err"]: return f"write {r['err']} vs model {m['err']}"
         return None if r["v"] == m["v"] else "written text differs: " + first_diff(r["v"], m["v"])
     res = batch_tie(run, "str(circuit)", cases, lambda c: O.req_write(c["c"]), lambda c: O.impl_write(c["c"]), O.parse_str, cmp_w)
+    # the specification reader (OSq/Sem/Grammar.lean, the recogniser the round-trip theorem is stated against) vs libqasm
+    texts = [r["v"] for c, r, _ in res if "harness_error" not in r and r["err"] is None]
+    try:
+        reads = dict(zip(texts, M.run_reader(["3 " + W.s2h(t) for t in texts])))
+    except Exception as ex:
+        run.notes.append(f"specification reader unavailable: {ex!r}"); reads = {}
     for c, r, _ in res:
         run.count(c["c"], tag="write-parse")
         if "harness_error" in r: continue
         if r["err"] is not None: run.violation(f"writing raised {r['err']}", c); continue
         pr = O.impl_parse(r["v"])
+        rd = M.parse_reader(reads[r["v"]]) if r["v"] in reads else "n/a"
+        if rd != "n/a":
+            run.hist["texts_read_by_specification_reader"] += 1
+            has_mz = "= measure_z " in r["v"]
+            if (rd is None) != (pr["err"] is not None) and not has_mz:
+                run.mismatch(f"specification reader {'rejects' if rd is None else 'accepts'} a text that libqasm {'accepts' if pr['err'] is None else 'rejects'}", {"text": r["v"]})
+            elif rd is not None and pr["err"] is None:
+                head, lines = rd
+                lines = [l for l in lines if l[0] != "comment"]
+                if head[:2] != [pr["v"]["nq"], pr["v"]["nb"]] or len(lines) != len(pr["v"]["stmts"]):
+                    run.mismatch("specification reader and libqasm disagree on registers / number of statements", {"text": r["v"]})
+                else:
+                    for l, st in zip(lines, pr["v"]["stmts"]):
+                        args = st["nm"]["args"]
+                        qs = [v for k, v in args if k == "q"]; ps = [v for k, v in args if k not in ("q", "b")]
+                        if l[0] == "gate" and st["k"] in ("gate", "reset"):
+                            ok_ = l[1] == st["nm"]["name"] and l[3] == qs and len(l[2]) == len(ps) and all(float(t_) == float(v_) for t_, v_ in zip(l[2], ps))
+                        elif l[0] == "measure" and st["k"] == "measure":
+                            ok_ = l[2] == st["nm"]["name"] and l[3] == st["q"] and l[1] == st["b"]
+                        else: ok_ = False
+                        if not ok_:
+                            run.mismatch(f"specification reader and libqasm read a line differently: {l} vs {st['nm']}", {"text": r["v"]}); break
         if pr["err"] is not None:
             fk = "C04-measure_z-unparseable" if "= measure_z " in r["v"] and O.impl_parse(r["v"].replace("= measure_z ", "= measure "))["err"] is None else None
             run.violation(f"the written cQASM is rejected by the parser ({pr['err']})", {**c, "text": r["v"]}, fk); continue
